@@ -559,3 +559,54 @@ MA('C14', 'shape completion sign', PARTF, 'uniform_partition',
    'n_calc = (xmax - xmin) / dx + sum([bdry_l, bdry_r]) / 2.0',
    'n_calc = (xmax - xmin) / dx - sum([bdry_l, bdry_r]) / 2.0',
    'uniform_partition')
+
+# ---- C19 -------------------------------------------------------------------
+UTILF = 'odl/tomo/util/utility.py'
+DETF = 'odl/tomo/geometry/detector.py'
+CONEF = 'odl/tomo/geometry/conebeam.py'
+PARF = 'odl/tomo/geometry/parallel.py'
+M('C19', 'euler matrix sign flip', UTILF,
+  "-sph * sps + cph * cth * cps,", "sph * sps + cph * cth * cps,",
+  'euler_matrix')
+MA('C19', 'circular detector derivative sign', DETF,
+   'CircularDetector.surface_deriv', 'deriv[..., 1] = -np.cos(param)',
+   'deriv[..., 1] = np.cos(param)', 'CircularDetector.surface_deriv')
+MA('C19', 'det_point_position contracts the wrong axis',
+   'odl/tomo/geometry/geometry.py', 'Geometry.det_point_position',
+   'surf_axes = list(range(matrix.ndim - 2)) + [matrix_axes[-1]]',
+   'surf_axes = list(range(matrix.ndim - 2)) + [matrix_axes[-2]]',
+   'Geometry.det_point_position')
+M('C19', 'cone beam getitem drops pitch', CONEF,
+  "                                pitch=self.pitch,\n", "",
+  'ConeBeamGeometry.__getitem__')
+MA('C19', 'parallel beam half width', PARF, 'parallel_beam_geometry',
+   'det_min_pt = -rho', 'det_min_pt = -rho / 2', 'parallel_beam_geometry',
+   nth=0)
+MA('C19', 'cone beam height sine regression', CONEF, 'cone_beam_geometry',
+   'h = 2 * np.tan(half_cone_angle) * (rs + rd)',
+   'h = 2 * np.sin(half_cone_angle) * (rs + rd)', 'cone_beam_geometry:h')
+MA('C19', 'rodrigues without axis projection', UTILF, 'axis_rotation_matrix',
+   'axis_mat = cos_ang * id_mat + (1.0 - cos_ang) * dy_mat + sin_ang * cross_mat',
+   'axis_mat = cos_ang * id_mat + sin_ang * cross_mat', 'axis_rotation_matrix')
+MA('C19', 'cross matrix transposed entry', UTILF, 'axis_rotation_matrix',
+   'cross_mat = np.array(...',
+   'cross_mat = np.array([[0, -axis[2], axis[1]], [axis[2], 0, axis[0]], [-axis[1], axis[0], 0]])',
+   'axis_rotation_matrix')
+MA('C19', 'spherical detector theta derivative', DETF,
+   'SphericalDetector.surface_deriv',
+   'deriv_theta[..., 2] = np.cos(param[1])',
+   'deriv_theta[..., 2] = -np.cos(param[1])',
+   'SphericalDetector.surface_deriv')
+MA('C19', 'det_to_src sign', 'odl/tomo/geometry/geometry.py',
+   'DivergentBeamGeometry.det_to_src',
+   'det_to_src = self.src_position(angle) - self.det_point_position(angle, dparam)',
+   'det_to_src = self.det_point_position(angle, dparam) - self.src_position(angle)',
+   'DivergentBeamGeometry.det_to_src')
+MA('C19', 'cylindrical derivative scaled twice', DETF,
+   'CylindricalDetector.surface_deriv', 'deriv_phi[..., 0] = -np.sin(param[0])',
+   'deriv_phi[..., 0] = -self.radius * np.sin(param[0])',
+   'CylindricalDetector.surface_deriv')
+MA('C19', 'circular frame mirrored', DETF, 'CircularDetector.__init__',
+   'self.__rotation_matrix = np.array([[cos, -sin], [sin, cos]])',
+   'self.__rotation_matrix = np.array([[cos, sin], [sin, cos]])',
+   'CircularDetector.__init__')
